@@ -104,7 +104,9 @@ func (b *Base128Encoder) Encode(src []byte) []byte {
 		whichByte++
 	}
 
-	dst = append(dst, bufByte)
+	if whichByte != 1 {
+		dst = append(dst, bufByte)
+	}
 	dst = escape128(dst)
 	return dst
 }
